@@ -204,8 +204,14 @@ pub fn check(plans: &[Plan], recs: &[RunRec]) -> Outcome {
         if g.bestmoves.is_empty() && !g.thread_ended && g.tid.is_some() {
             // still searching when the run ended: overdue if the limits' deadline passed long ago
             if let Some(dl) = l.deadline_ms(white) {
-                let last = rec.events.last().map_or((0, 0), |e| (e.clock, e.stalled));
-                let work = last.0.saturating_sub(v.deliver_clock).saturating_sub(last.1.saturating_sub(v.deliver_stalled));
+                let last = rec.events.last().map_or((0, 0, 0), |e| (e.clock, e.stalled, e.ticks));
+                let own = g.tid.map_or(0, |t| rec.threads[t as usize].ticks);
+                let foreign = last.2.saturating_sub(v.deliver_ticks).saturating_sub(own).saturating_mul(plan.cost_ns);
+                let work = last
+                    .0
+                    .saturating_sub(v.deliver_clock)
+                    .saturating_sub(last.1.saturating_sub(v.deliver_stalled))
+                    .saturating_sub(foreign);
                 let allow = dl.saturating_mul(1_000_000).saturating_add(W_ALLOW_TICKS * plan.cost_ns);
                 if work > allow {
                     out.violations.push(Violation::new(
@@ -230,7 +236,19 @@ pub fn check(plans: &[Plan], recs: &[RunRec]) -> Outcome {
         // timing: work time from go to bestmove within what the limits allow
         if let (Some(b), Some(dl)) = (g.bestmoves.first(), l.deadline_ms(white)) {
             let injected = b.stalled.saturating_sub(v.deliver_stalled);
-            let work = b.clock.saturating_sub(v.deliver_clock).saturating_sub(injected);
+            // work other threads did meanwhile (the input thread handling a flood of commands)
+            // shares the one virtual clock; on a real machine it runs beside the search, so it is
+            // not charged to the search's deadline
+            let foreign = b
+                .ticks
+                .saturating_sub(v.deliver_ticks)
+                .saturating_sub(b.tticks)
+                .saturating_mul(plan.cost_ns);
+            let work = b
+                .clock
+                .saturating_sub(v.deliver_clock)
+                .saturating_sub(injected)
+                .saturating_sub(foreign);
             let allow = dl.saturating_mul(1_000_000).saturating_add(W_ALLOW_TICKS * plan.cost_ns);
             out.stats.inc("deadline_checked");
             let over_ticks = work.saturating_sub(dl.saturating_mul(1_000_000)) / plan.cost_ns.max(1);
